@@ -234,3 +234,30 @@ Definition pair_ok (cA : cfg) (stepsA : list rstep) (cB : cfg) (stepsB : list rs
   Nat.eqb (length outs) (length ops) &&
   history_ok cA stepsA (calls_of false ops) (outs_of false ops outs) closesA &&
   history_ok cB stepsB (calls_of true ops) (outs_of true ops outs) closesB.
+
+(* ---------- reads on the closed wrapper itself: the strict reading ---------- *)
+(* reads after close fail rather than returning stale data, for a Read with any buffer size, 0 included: as long as the
+   body the caller holds is the very wrapper Close was called on (no probing HasBody has put a new wrapper around it
+   since), every Read returns no data AND an error - also one that asks for nothing. (Once a later probe has wrapped the
+   closed body again, a zero-length Read on the new wrapper may return 0, nil: the judgement of hist_ok, fails.)
+   w: the body has been replaced; top: the body held is a closed wrapper. Judged for requests that have a body. *)
+Definition read_refused (x : out) : bool :=
+  match x with ORead d oe => is_nil d && is_some oe | _ => false end.
+
+Fixpoint closed_reads_fail (c : cfg) (w top : bool) (ops : list op) (outs : list out) : bool :=
+  match ops, outs with
+  | OpHas :: ops', _ :: outs' => closed_reads_fail c (w || probing c) (top && negb (probing c)) ops' outs'
+  | OpRead _ :: ops', x :: outs' => (negb top || read_refused x) && closed_reads_fail c w top ops' outs'
+  | OpClose :: ops', _ :: outs' => closed_reads_fail c w (top || (w && negb (c_nil c))) ops' outs'
+  | _, _ => true
+  end.
+
+(* the judgement of the correspondence run: hist_ok and the strict reading together *)
+Definition history_strict_ok (c : cfg) (steps : list rstep) (ops : list op) (outs : list out) (closes : nat) : bool :=
+  history_ok c steps ops outs closes && closed_reads_fail c false false ops outs.
+
+Definition pair_strict_ok (cA : cfg) (stepsA : list rstep) (cB : cfg) (stepsB : list rstep)
+           (ops : list op2) (outs : list out) (closesA closesB : nat) : bool :=
+  pair_ok cA stepsA cB stepsB ops outs closesA closesB &&
+  closed_reads_fail cA false false (calls_of false ops) (outs_of false ops outs) &&
+  closed_reads_fail cB false false (calls_of true ops) (outs_of true ops outs).
